@@ -141,6 +141,25 @@ def exercise(run, records, files_records, label, rng):
             run.violation("finalize_twice_differs", f"{label}: finalising twice gives different verdicts at prefix {k}", dict(witness, prefix=k))
         compare_with_reference(run, got, reference(prefix), dict(witness, prefix=k), f"{label} prefix {k}/{len(records)}")
         run.case(canon_hash([shape, "prefix", k]), k >= 3)
+    # ---- one long-lived aggregator fed record by record and finalised after every record (live monitoring):
+    # the verdict after k records must be the documented verdict of the k-record prefix
+    from semantiva.trace.aggregation.aggregator import TraceAggregator
+
+    live = TraceAggregator()
+    for k, rec in enumerate(records, 1):
+        live.ingest(rec)
+        runs_l, launches_l = live.finalize_all()
+        got_live = {"runs": {r.run_id: dataclasses.asdict(r) for r in runs_l},
+                    "launches": {f"{l.run_space_launch_id}#{l.run_space_attempt}": dataclasses.asdict(l) for l in launches_l}}
+        run.count("aggregator_runs")
+        run.count("incremental_finalisations")
+        fresh, _ = verdicts(records[:k], None)
+        if json.dumps(got_live, sort_keys=True, default=str) != json.dumps(fresh, sort_keys=True, default=str):
+            field = _first_field_diff(fresh, got_live)
+            run.violation(f"incremental_verdict_stale:{field}",
+                          f"{label}: an aggregator finalised after every record gives a different verdict at record {k} than a fresh aggregator fed the same {k} records (field {field})",
+                          dict(witness, prefix=k))
+            break
     # ---- order independence on the full set and on subsets
     sets = [("full", records)]
     for _ in range(30):
@@ -190,6 +209,7 @@ def _first_field_diff(a, b):
 def run(run):
     boot.boot()
     from vlib import cli, gen, refmodel as rm, tracecheck as tc
+    from vlib.verdict import canon_hash
     from checks import c06
 
     seed = run.seed * 1000 + run.shard[0]
@@ -200,6 +220,7 @@ def run(run):
     try:
         # ---- single runs (all failure kinds, as in C06)
         done = 0
+        singles: list = []
         while done < n_single:
             base = g.pipeline(max_len=5, fault_bias=0.0)
             try:
@@ -216,9 +237,38 @@ def run(run):
             if not tr.records:
                 continue
             done += 1
+            singles.append(tr.records)
             run.count("single_run_traces")
             run.count(f"single_kind_{kind}")
             exercise(run, tr.records, [tr.records], f"single:{kind}", rng)
+        # ---- several independent traces (separate driver instances: their lifecycle seq numbers collide) in ONE
+        # aggregator: every run's verdict must equal its verdict in isolation, for concatenations and interleavings
+        for gi in range(0, len(singles) - 2, 3):
+            group = singles[gi:gi + 3]
+            alone = {}
+            for recs in group:
+                v, _ = verdicts(recs, None)
+                alone.update(v["runs"])
+            orders = [("concatenated", [r for recs in group for r in recs]),
+                      ("concatenated_reversed_files", [r for recs in reversed(group) for r in recs])]
+            for _ in range(6):
+                orders.append(("kway_interleaving", kway(group, rng)))
+            allrecs = [r for recs in group for r in recs]
+            for _ in range(4):
+                p_ = list(allrecs)
+                rng.shuffle(p_)
+                orders.append(("permutation", p_))
+            for oname, order in orders:
+                got, _ = verdicts(order, None)
+                run.count("aggregator_runs")
+                run.count("multi_trace_ingestions")
+                if json.dumps(got["runs"], sort_keys=True, default=str) != json.dumps(alone, sort_keys=True, default=str):
+                    field = _first_field_diff({"runs": alone, "launches": {}}, {"runs": got["runs"], "launches": {}})
+                    run.violation(f"verdict_depends_on_other_traces_in_aggregator:{field}",
+                                  f"{len(group)} independent single-run traces in one aggregator ({oname}): a run's verdict differs from its verdict in isolation (field {field})",
+                                  {"shapes": [[r.get("record_type") for r in recs] for recs in group], "order": oname})
+                    break
+                run.case(canon_hash(["multi", gi, oname, [r.get("record_type") for r in order][:10]]), True)
         # ---- launches (failing run at every index, file and directory output)
         for li in range(n_launch):
             n_runs = rng.randint(2, 5)
